@@ -24,7 +24,8 @@ CHECKS = {
                      "stream; on the real repository every subscriber channel is drained after every operation and compared "
                      "with the spec's delta, and the subscriber's own reconstruction is compared with the reported chain. Schedules: "
                      "concurrent peers with a subscriber that is slow or 10000 headers behind (channel full); TLC linearizes "
-                     "the recorded calls (HeaderChainLin) and the reconstruction must be the reported chain.",
+                     "the recorded calls (HeaderChainLin) and the reconstruction must be the reported chain. Fixed-shape families "
+                     "with a subscriber: fork of a fork (also across a Clean), main / side branch / cousin / branch of the side branch.",
                 technique="TLA+ model checking (TLC) + spec-to-code behaviour replay + linearization of concurrent traces by TLC"),
     "C08": dict(level="model_checking", engine="headers", ref="3 C08",
                 text="Submit's case list is the reference verdict; RefusalChangesNothing is an action property checked by TLC "
